@@ -8,7 +8,8 @@
                head.block.store] ; head.index.store (LP)
      bulk_pop  the same with end = min(push_index, block end): one slot read per value
      peek      tail.index.load ; slot read
-     len       head.index.load ; tail.index.load          (is_empty = (len() == 0))
+     len       head.index.load ; tail.index.load          (is_empty = (len() == 0)); callable by the consumer
+               and by the producer thread (action PLen)
 
    Two fixed roles: the producer (push) and the consumer (everything else).  Unsynchronised loads
    of a variable that only the loading role writes are folded into the next transition of that
@@ -33,7 +34,8 @@
                           bad_recyc alloc_node recycled a block of the window head.block..tail.block
                           bad_over  a slot holding a value the consumer has not yet passed was overwritten
                           bad_null  a null `next` was followed
-                          bad_len   len() outside [abstract length at call, abstract length at return] *)
+                          bad_len   len() by the consumer outside [abstract length at call, abstract length at return]
+                          bad_lenp  len() by the producer outside [abstract length at return, abstract length at call] *)
 From Coq Require Import List Arith Bool.
 Import ListNotations.
 
@@ -41,19 +43,19 @@ Section M.
 Variable B : nat.
 Hypothesis Bpos : 1 <= B.
 
-Inductive ppc := PIdle | PWrite | PRec1 | PRdHead | PStLH | PRec2 | PLink | PSetT | PPub.
+Inductive ppc := PIdle | PWrite | PRec1 | PRdHead | PStLH | PRec2 | PLink | PSetT | PPub | PLenH | PLenT.
 Inductive cpc := CIdle | CTail | CRead | CNext | CSetH | CCommit | CLenH | CLenT.
 Inductive op := OPop | OBulk | OPeek | OLen.
 
 Record mem := { tidx : nat; tblk : nat; hidx : nat; hblk : nat; first : nat; lasth : nat;
                 nxt : nat -> nat; slot : nat -> nat -> option (nat * nat); nalloc : nat }.
-Record prod := { pp : ppc; pv : nat; pnew : nat; plh : nat }.
+Record prod := { pp : ppc; pv : nat; pnew : nat; plh : nat; plenh : nat; pres : nat }.
 Record cons := { cp : cpc; cop : op; cpidx : nat; cend : nat; ck : nat; cacc : list nat;
                  cnh : nat; clh : nat; cres : nat }.
-Record gq := { absq : list nat; pushed : list nat; popped : list nat; glen0 : nat }.
+Record gq := { absq : list nat; pushed : list nat; popped : list nat; glen0 : nat; glen0p : nat }.
 Record gk := { bid : nat -> nat; gfk : nat; glk : nat; gplk : nat; ghk : nat; gtk : nat; gnb : nat }.
 Record gm := { bad_fifo : bool; bad_none : bool; bad_read : bool; bad_recyc : bool;
-               bad_over : bool; bad_null : bool; bad_len : bool }.
+               bad_over : bool; bad_null : bool; bad_len : bool; bad_lenp : bool }.
 Record st := { M : mem; P : prod; C : cons; Q : gq; K : gk; F : gm }.
 
 Definition upd {X} (f : nat -> X) i v := fun j => if Nat.eqb j i then v else f j.
@@ -81,9 +83,10 @@ Definition m_nxt m v := {| tidx := tidx m; tblk := tblk m; hidx := hidx m; hblk 
 Definition m_slot m v := {| tidx := tidx m; tblk := tblk m; hidx := hidx m; hblk := hblk m; first := first m; lasth := lasth m; nxt := nxt m; slot := v; nalloc := nalloc m |}.
 Definition m_nalloc m v := {| tidx := tidx m; tblk := tblk m; hidx := hidx m; hblk := hblk m; first := first m; lasth := lasth m; nxt := nxt m; slot := slot m; nalloc := v |}.
 
-Definition p_pc p v := {| pp := v; pv := pv p; pnew := pnew p; plh := plh p |}.
-Definition p_new p v := {| pp := pp p; pv := pv p; pnew := v; plh := plh p |}.
-Definition p_lh p v := {| pp := pp p; pv := pv p; pnew := pnew p; plh := v |}.
+Definition p_pc p v := {| pp := v; pv := pv p; pnew := pnew p; plh := plh p; plenh := plenh p; pres := pres p |}.
+Definition p_new p v := {| pp := pp p; pv := pv p; pnew := v; plh := plh p; plenh := plenh p; pres := pres p |}.
+Definition p_lh p v := {| pp := pp p; pv := pv p; pnew := pnew p; plh := v; plenh := plenh p; pres := pres p |}.
+Definition q_len0p q v := {| absq := absq q; pushed := pushed q; popped := popped q; glen0 := glen0 q; glen0p := v |}.
 
 Definition c_pc c v := {| cp := v; cop := cop c; cpidx := cpidx c; cend := cend c; ck := ck c; cacc := cacc c; cnh := cnh c; clh := clh c; cres := cres c |}.
 
@@ -94,26 +97,27 @@ Definition k_hk k v := {| bid := bid k; gfk := gfk k; glk := glk k; gplk := gplk
 Definition k_tk k v := {| bid := bid k; gfk := gfk k; glk := glk k; gplk := gplk k; ghk := ghk k; gtk := v; gnb := gnb k |}.
 Definition k_app k b := {| bid := upd (bid k) (gnb k) b; gfk := gfk k; glk := glk k; gplk := gplk k; ghk := ghk k; gtk := gtk k; gnb := S (gnb k) |}.
 
-Definition f_fifo f b := {| bad_fifo := bad_fifo f || b; bad_none := bad_none f; bad_read := bad_read f; bad_recyc := bad_recyc f; bad_over := bad_over f; bad_null := bad_null f; bad_len := bad_len f |}.
-Definition f_none f b := {| bad_fifo := bad_fifo f; bad_none := bad_none f || b; bad_read := bad_read f; bad_recyc := bad_recyc f; bad_over := bad_over f; bad_null := bad_null f; bad_len := bad_len f |}.
-Definition f_read f b := {| bad_fifo := bad_fifo f; bad_none := bad_none f; bad_read := bad_read f || b; bad_recyc := bad_recyc f; bad_over := bad_over f; bad_null := bad_null f; bad_len := bad_len f |}.
-Definition f_recyc f b := {| bad_fifo := bad_fifo f; bad_none := bad_none f; bad_read := bad_read f; bad_recyc := bad_recyc f || b; bad_over := bad_over f; bad_null := bad_null f; bad_len := bad_len f |}.
-Definition f_over f b := {| bad_fifo := bad_fifo f; bad_none := bad_none f; bad_read := bad_read f; bad_recyc := bad_recyc f; bad_over := bad_over f || b; bad_null := bad_null f; bad_len := bad_len f |}.
-Definition f_null f b := {| bad_fifo := bad_fifo f; bad_none := bad_none f; bad_read := bad_read f; bad_recyc := bad_recyc f; bad_over := bad_over f; bad_null := bad_null f || b; bad_len := bad_len f |}.
-Definition f_len f b := {| bad_fifo := bad_fifo f; bad_none := bad_none f; bad_read := bad_read f; bad_recyc := bad_recyc f; bad_over := bad_over f; bad_null := bad_null f; bad_len := bad_len f || b |}.
+Definition f_fifo f b := {| bad_fifo := bad_fifo f || b; bad_none := bad_none f; bad_read := bad_read f; bad_recyc := bad_recyc f; bad_over := bad_over f; bad_null := bad_null f; bad_len := bad_len f; bad_lenp := bad_lenp f |}.
+Definition f_none f b := {| bad_fifo := bad_fifo f; bad_none := bad_none f || b; bad_read := bad_read f; bad_recyc := bad_recyc f; bad_over := bad_over f; bad_null := bad_null f; bad_len := bad_len f; bad_lenp := bad_lenp f |}.
+Definition f_read f b := {| bad_fifo := bad_fifo f; bad_none := bad_none f; bad_read := bad_read f || b; bad_recyc := bad_recyc f; bad_over := bad_over f; bad_null := bad_null f; bad_len := bad_len f; bad_lenp := bad_lenp f |}.
+Definition f_recyc f b := {| bad_fifo := bad_fifo f; bad_none := bad_none f; bad_read := bad_read f; bad_recyc := bad_recyc f || b; bad_over := bad_over f; bad_null := bad_null f; bad_len := bad_len f; bad_lenp := bad_lenp f |}.
+Definition f_over f b := {| bad_fifo := bad_fifo f; bad_none := bad_none f; bad_read := bad_read f; bad_recyc := bad_recyc f; bad_over := bad_over f || b; bad_null := bad_null f; bad_len := bad_len f; bad_lenp := bad_lenp f |}.
+Definition f_null f b := {| bad_fifo := bad_fifo f; bad_none := bad_none f; bad_read := bad_read f; bad_recyc := bad_recyc f; bad_over := bad_over f; bad_null := bad_null f || b; bad_len := bad_len f; bad_lenp := bad_lenp f |}.
+Definition f_len f b := {| bad_fifo := bad_fifo f; bad_none := bad_none f; bad_read := bad_read f; bad_recyc := bad_recyc f; bad_over := bad_over f; bad_null := bad_null f; bad_len := bad_len f || b; bad_lenp := bad_lenp f |}.
+Definition f_lenp f b := {| bad_fifo := bad_fifo f; bad_none := bad_none f; bad_read := bad_read f; bad_recyc := bad_recyc f; bad_over := bad_over f; bad_null := bad_null f; bad_len := bad_len f; bad_lenp := bad_lenp f || b |}.
 
 (* ---- derived positions ---- *)
 (* the consumer's read position: every index below it will not be read again *)
 Definition rdpos (s : st) : nat :=
   match cp (C s) with CNext | CSetH | CCommit => cend (C s) | _ => hidx (M s) end.
 (* number of slots written: tail.index, plus one while a push sits between its slot write and its publication *)
-Definition written (p : ppc) : bool := match p with PIdle | PWrite => false | _ => true end.
+Definition written (p : ppc) : bool := match p with PIdle | PWrite | PLenH | PLenT => false | _ => true end.
 Definition wpos (s : st) : nat := tidx (M s) + (if written (pp (P s)) then 1 else 0).
 (* block b is one of the blocks from the consumer's head block to the last appended block *)
 Definition in_window (s : st) (b : nat) : bool :=
   existsb (fun k => Nat.eqb (bid (K s) k) b) (seq (ghk (K s)) (gnb (K s) - ghk (K s))).
 
-Inductive action := Push (v : nat) | PStep | Pop | Bulk | Peek | Len | CStep.
+Inductive action := Push (v : nat) | PLen | PStep | Pop | Bulk | Peek | Len | CStep.
 
 (* alloc_node: `first` is handed out, first := first.next *)
 Definition recycle (s : st) : st :=
@@ -130,7 +134,7 @@ Definition start_call (s : st) (o : op) : option st :=
       Some {| M := M s; P := P s;
               C := {| cp := match o with OLen => CLenH | _ => CTail end; cop := o; cpidx := 0; cend := 0; ck := 0;
                       cacc := []; cnh := 0; clh := 0; cres := 0 |};
-              Q := {| absq := absq (Q s); pushed := pushed (Q s); popped := popped (Q s); glen0 := length (absq (Q s)) |};
+              Q := {| absq := absq (Q s); pushed := pushed (Q s); popped := popped (Q s); glen0 := length (absq (Q s)); glen0p := glen0p (Q s) |};
               K := K s; F := F s |}
   | _ => None
   end.
@@ -140,12 +144,24 @@ Definition step (s : st) (a : action) : option st :=
   match a with
   | Push v =>
       match pp p with
-      | PIdle => Some {| M := m; P := {| pp := PWrite; pv := v; pnew := 0; plh := 0 |}; C := c; Q := q; K := k; F := f |}
+      | PIdle => Some {| M := m; P := {| pp := PWrite; pv := v; pnew := 0; plh := 0; plenh := 0; pres := 0 |}; C := c; Q := q; K := k; F := f |}
+      | _ => None
+      end
+  | PLen =>        (* len() called by the producer thread *)
+      match pp p with
+      | PIdle => Some {| M := m; P := {| pp := PLenH; pv := pv p; pnew := 0; plh := 0; plenh := 0; pres := 0 |}; C := c;
+                         Q := q_len0p q (length (absq q)); K := k; F := f |}
       | _ => None
       end
   | PStep =>
       match pp p with
       | PIdle => None
+      | PLenH =>       (* pop_index = self.head.index.load(Relaxed) *)
+          Some {| M := m; P := {| pp := PLenT; pv := pv p; pnew := 0; plh := 0; plenh := hidx m; pres := 0 |}; C := c; Q := q; K := k; F := f |}
+      | PLenT =>       (* push_index = self.tail.index.load(Acquire); push_index - pop_index *)
+          let r := tidx m - plenh p in
+          Some {| M := m; P := {| pp := PIdle; pv := pv p; pnew := 0; plh := 0; plenh := plenh p; pres := r |}; C := c; Q := q; K := k;
+                  F := f_lenp f (Nat.ltb r (length (absq q)) || Nat.ltb (glen0p q) r) |}
       | PWrite =>      (* tail.set(push_index, v) *)
           let o := tidx m mod B in
           let over := match slot m (tblk m) o with Some (i, _) => Nat.leb (rdpos s) i | None => false end in
@@ -168,7 +184,7 @@ Definition step (s : st) (a : action) : option st :=
           Some {| M := m_tblk m (pnew p); P := p_pc p PPub; C := c; Q := q; K := k_tk k (S (gtk k)); F := f |}
       | PPub =>        (* self.tail.index.store(new_index, Release): LP of push *)
           Some {| M := m_tidx m (S (tidx m)); P := p_pc p PIdle; C := c;
-                  Q := {| absq := absq q ++ [pv p]; pushed := pushed q ++ [pv p]; popped := popped q; glen0 := glen0 q |};
+                  Q := {| absq := absq q ++ [pv p]; pushed := pushed q ++ [pv p]; popped := popped q; glen0 := glen0 q; glen0p := glen0p q |};
                   K := k; F := f |}
       end
   | Pop => start_call s OPop
@@ -218,7 +234,7 @@ Definition step (s : st) (a : action) : option st :=
       | CCommit =>     (* self.head.index.store(new_index): LP of pop / bulk_pop *)
           let n := length (cacc c) in
           Some {| M := m_hidx m (cend c); P := p; C := c_pc c CIdle;
-                  Q := {| absq := skipn n (absq q); pushed := pushed q; popped := popped q ++ cacc c; glen0 := glen0 q |};
+                  Q := {| absq := skipn n (absq q); pushed := pushed q; popped := popped q ++ cacc c; glen0 := glen0 q; glen0p := glen0p q |};
                   K := k; F := f_fifo f (negb (list_eqb (cacc c) (firstn n (absq q)))) |}
       | CLenH =>       (* pop_index = self.head.index.load(Relaxed) *)
           Some {| M := m; P := p;
@@ -236,12 +252,12 @@ Definition step (s : st) (a : action) : option st :=
 Definition init : st :=
   {| M := {| tidx := 0; tblk := 1; hidx := 0; hblk := 1; first := 1; lasth := 1;
              nxt := fun _ => 0; slot := fun _ _ => None; nalloc := 2 |};
-     P := {| pp := PIdle; pv := 0; pnew := 0; plh := 0 |};
+     P := {| pp := PIdle; pv := 0; pnew := 0; plh := 0; plenh := 0; pres := 0 |};
      C := {| cp := CIdle; cop := OPop; cpidx := 0; cend := 0; ck := 0; cacc := []; cnh := 0; clh := 0; cres := 0 |};
-     Q := {| absq := []; pushed := []; popped := []; glen0 := 0 |};
+     Q := {| absq := []; pushed := []; popped := []; glen0 := 0; glen0p := 0 |};
      K := {| bid := fun _ => 1; gfk := 0; glk := 0; gplk := 0; ghk := 0; gtk := 0; gnb := 1 |};
      F := {| bad_fifo := false; bad_none := false; bad_read := false; bad_recyc := false;
-             bad_over := false; bad_null := false; bad_len := false |} |}.
+             bad_over := false; bad_null := false; bad_len := false; bad_lenp := false |} |}.
 
 Inductive Reach : st -> Prop :=
 | R0 : Reach init
@@ -255,6 +271,6 @@ Fixpoint run (s : st) (l : list action) : option st :=
 
 Definition monitors_ok (s : st) : bool :=
   let f := F s in
-  negb (bad_fifo f || bad_none f || bad_read f || bad_recyc f || bad_over f || bad_null f || bad_len f).
+  negb (bad_fifo f || bad_none f || bad_read f || bad_recyc f || bad_over f || bad_null f || bad_len f || bad_lenp f).
 
 End M.
